@@ -1,7 +1,35 @@
-import Hs.Model.Vx
+import Hs.Drv.Json
+import Hs.Spec.HaysonRead
 namespace Hs.Drv.C05
+open Hs Hs.Vx
 
-/-- requests `C05 <cmd> ...` (tokens after the property id) -/
-def handle (_ts : List String) : String := "bad-request"
+mutual
+/-- `-0.0` and `0.0` are the same real: the conformance comparison does not distinguish them -/
+partial def normZero : Val → Val
+  | .num n => if n.v.bits = 2 ^ 63 then .num { n with v := { bits := 0, txt := ['0'] } } else .num n
+  | .coord a b =>
+    .coord (if a.bits = 2 ^ 63 then { bits := 0, txt := ['0'] } else a) (if b.bits = 2 ^ 63 then { bits := 0, txt := ['0'] } else b)
+  | .list xs => .list (Vals.ofList (xs.toList.map normZero))
+  | .dict d => .dict (normTags d)
+  | .grid md cols rows ver =>
+    .grid (match md with | .some t => .some (normTags t) | .none => .none)
+      (Cols.ofList (cols.toList.map fun (n, m) => (n, match m with | .some t => OTags.some (normTags t) | .none => OTags.none)))
+      (Rows.ofList (rows.toList.map normTags)) ver
+  | v => v
+partial def normTags (t : Tags) : Tags := Tags.ofList (t.toList.map fun (k, v) => (k, normZero v))
+end
+
+/-- `read J` → the reference reader's value (`ok V` | `err`); other requests: `jenc`, `jdec` -/
+def handle (ts : List String) : String :=
+  match ts with
+  | cmd :: rest =>
+    if cmd = "read" then
+      match Hs.Drv.Json.pJ rest with
+      | some (j, _) => match Hs.Spec.Hayson.readDoc j with
+        | some v => "ok " ++ showVal (normZero v)
+        | none => "err"
+      | none => "bad-request"
+    else Hs.Drv.Json.handle ts
+  | [] => "bad-request"
 
 end Hs.Drv.C05
